@@ -289,16 +289,16 @@ Section Agree.
     twalk_data sc w oc ccls chain = Some v ->
     exists i a st' more,
       twalk sc st cur ccls chain = ROk (SCol i a) st' /\ inv st' /\ renv st' = Some (env ++ more) /\
-      (i < length (env ++ more))%nat /\ ecol (env ++ more) i a = v /\ walk w oc chain = Ok v /\ scalar_val v = true.
+      (i < length (env ++ more))%nat /\ ecol (env ++ more) i a = v /\ walk w oc chain = Ok v /\ nscalar v = true.
   Proof.
     induction chain as [|a rest IH]; intros st env cur ccls oc v Hinv He Hc Hd; simpl in Hd; try discriminate.
     simpl. destruct (field_kind sc ccls a) as [[|tgt]|] eqn:Ek; try discriminate.
     - destruct (assoc a (o_fields oc)) as [v0|] eqn:Ea; try discriminate.
-      destruct rest; try discriminate. destruct (scalar_val v0) eqn:Es; try discriminate.
+      destruct rest; try discriminate. destruct (nscalar v0) eqn:Es; try discriminate.
       injection Hd as <-. exists cur, a, st, []. rewrite app_nil_r.
       split; [reflexivity|]. split; [assumption|]. split; [assumption|].
       split; [eapply nth_some_lt; eauto|].
-      split; [rewrite (ecol_some _ _ _ _ Hc), col_row_of, Ea; now apply enc_scalar|].
+      split; [rewrite (ecol_some _ _ _ _ Hc), col_row_of, Ea; now apply enc_nscalar|].
       split; [|assumption]. reflexivity.
     - destruct (assoc a (o_fields oc)) as [[| | |k|]|] eqn:Ea; try discriminate.
       destruct rest as [|b rest']; try discriminate.
@@ -331,7 +331,7 @@ Section Agree.
     exists e st' more,
       toperand sc vars sel root st x = ROk e st' /\ inv st' /\ renv st' = Some (env ++ more) /\
       (forall more', eval_sx ((env ++ more) ++ more') e = v) /\ eval_operand w bnd x = Ok v /\
-      scalar_val v = true /\ sx_bad e = false /\ e <> SConst VNull.
+      nscalar v = true /\ sx_bad e = false /\ match x with OAttr _ _ => is_col e = true | _ => e = SConst v end.
   Proof.
     intros st env v Hinv He Hs Hd. destruct x as [x ch| c | |]; try discriminate.
     - destruct (shape_attr _ _ Hs) as [Hv _]. cbn [operand_data] in Hd. rewrite Hv in Hd.
@@ -341,17 +341,17 @@ Section Agree.
       exists (SCol i a), st', more. rewrite H1.
       split; [reflexivity|]. split; [assumption|]. split; [assumption|].
       split; [intros more'; simpl; rewrite ecol_app; auto|].
-      split; [simpl; rewrite Hv; exact H6|]. split; [assumption|]. split; [reflexivity|discriminate].
-    - simpl in Hs. simpl in Hd. destruct (scalar_val c) eqn:Es; try discriminate. injection Hd as <-.
+      split; [simpl; rewrite Hv; exact H6|]. split; [assumption|]. split; reflexivity.
+    - simpl in Hs. simpl in Hd. destruct (nscalar c) eqn:Es; try discriminate. injection Hd as <-.
       exists (SConst c), st, []. rewrite app_nil_r.
       split; [reflexivity|]. split; [assumption|]. split; [assumption|].
       split; [reflexivity|]. split; [reflexivity|]. split; [assumption|].
-      split; [now destruct c|]. intros H. injection H as ->. discriminate.
+      split; [now destruct c|reflexivity].
   Qed.
 
-  Lemma teqjoin_none st op v ch r :
+  Lemma teqjoin_none io st op v ch r :
     operand_shape sc sel root (OAttr v ch) = true -> operand_shape sc sel root r = true ->
-    teqjoin sc vars root st op (OAttr v ch) r = None.
+    teqjoin sc vars root io st op (OAttr v ch) r = None.
   Proof.
     intros H1 H2. destruct (shape_attr _ _ H1) as [E1 _].
     destruct op; simpl; auto. destruct r as [v2 ch2| | |]; auto.
@@ -368,40 +368,39 @@ Section Agree.
     operand_shape sc sel root l = true -> operand_shape sc sel root r = true -> rel_check sc vars b l r = true.
   Proof. intros H1 H2. unfold rel_check. now rewrite (shape_not_rel _ H1), (shape_not_rel _ H2). Qed.
 
-  Lemma mk_cmp_some op a b : b <> SConst VNull -> mk_cmp op a b = Some (SCmp op a b).
-  Proof. intros H. destruct b as [|[]]; try reflexivity. now destruct H. Qed.
-
   Lemma unbindable_scalars cs : forallb scalar_val cs = true -> existsb unbindable cs = false.
   Proof.
     induction cs as [|c cs IH]; simpl; auto. rewrite andb_true_iff. intros [H1 H2].
     rewrite IH by auto. now destruct c.
   Qed.
 
-  Lemma tcond_ok c : forall st env,
+  Lemma tcond_ok c : forall io st env,
     inv st -> renv st = Some env -> cond_shape sc sel root c = true -> cond_ok sc w sel root o c = true ->
     exists p st' more b,
-      tcond sc vars sel root st c = ROk (Some p) st' /\ inv st' /\ renv st' = Some (env ++ more) /\
-      eval_cond w bnd c = Ok b /\ (forall more', eval_pred ((env ++ more) ++ more') p = tv_of_bool b) /\
+      tcond sc vars sel root io st c = ROk (Some p) st' /\ inv st' /\ renv st' = Some (env ++ more) /\
+      eval_cond w bnd c = Ok b /\ (forall more', tv_true (eval_pred ((env ++ more) ++ more') p) = b) /\
       pred_bad p = false.
   Proof.
-    induction c as [op l r|ct it|p IHp q IHq|p IHp q IHq|p _|x]; intros st env Hinv He Hs Hd;
+    induction c as [op l r|ct it|p IHp q IHq|p IHp q IHq|p _|x]; intros io st env Hinv He Hs Hd;
       cbn [cond_shape cond_ok] in Hs, Hd; try discriminate.
     - (* comparison *)
       destruct l as [v ch| | |]; try discriminate.
-      apply andb_true_iff in Hs. destruct Hs as [Hs1 Hs2].
+      apply andb_true_iff in Hs. destruct Hs as [Hs _]. apply andb_true_iff in Hs. destruct Hs as [Hs1 Hs2].
       destruct (operand_data sc w sel root o (OAttr v ch)) as [a|] eqn:Ea; try discriminate.
       destruct (operand_data sc w sel root o r) as [b|] eqn:Eb; try discriminate.
-      destruct (toperand_ok _ _ _ _ Hinv He Hs1 Ea) as [e1 [st1 [m1 [T1 [I1 [R1 [V1 [P1 [S1 [B1 N1]]]]]]]]]].
-      destruct (toperand_ok _ _ _ _ I1 R1 Hs2 Eb) as [e2 [st2 [m2 [T2 [I2 [R2 [V2 [P2 [S2 [B2 N2]]]]]]]]]].
-      destruct (cmp_agree w op a b Hd) as [C1 C2].
-      exists (SCmp op e1 e2), st2, (m1 ++ m2), (tv_true (sql_cmp op a b)).
-      cbn [tcond]. unfold tcmp. rewrite (teqjoin_none _ _ _ _ _ Hs1 Hs2), (rel_check_shape _ _ _ Hs1 Hs2). cbn [negb].
-      rewrite T1, T2, (mk_cmp_some _ _ _ N2).
-      rewrite app_assoc.
+      destruct (toperand_ok _ _ _ _ Hinv He Hs1 Ea) as [e1 [st1 [m1 [T1 [I1 [R1 [V1 [P1 [S1 [B1 C1]]]]]]]]]].
+      destruct (toperand_ok _ _ _ _ I1 R1 Hs2 Eb) as [e2 [st2 [m2 [T2 [I2 [R2 [V2 [P2 [S2 [B2 C2]]]]]]]]]].
+      assert (C2' : is_col e2 = true \/ e2 = SConst b) by (destruct r; auto).
+      destruct (mk_cmp_sound w op e1 e2 a b C1 C2' S1 S2 Hd B2) as [p [M [PB PV]]].
+      exists p, st2, (m1 ++ m2), (tv_true (eval_pred (((env ++ m1) ++ m2)) p)).
+      cbn [tcond]. unfold tcmp. rewrite (teqjoin_none _ _ _ _ _ _ Hs1 Hs2), (rel_check_shape _ _ _ Hs1 Hs2). cbn [negb].
+      rewrite T1, T2, M. rewrite app_assoc.
+      assert (PV' : forall more', py_cmp w op a b = Ok (tv_true (eval_pred (((env ++ m1) ++ m2) ++ more') p))).
+      { intros more'. apply PV; [rewrite <- (app_assoc (env ++ m1) m2 more'); apply V1 | apply V2]. }
       split; [reflexivity|]. split; [assumption|]. split; [assumption|].
-      split; [cbn [eval_cond]; rewrite P1, P2; exact C1|].
-      split; [|simpl; now rewrite B1, B2].
-      intros more'. cbn [eval_pred]. rewrite V2. rewrite <- (app_assoc (env ++ m1) m2 more'), V1. exact C2.
+      split; [cbn [eval_cond]; rewrite P1, P2; specialize (PV' []); now rewrite app_nil_r in PV'|].
+      split; [|assumption].
+      intros more'. assert (Q := PV' more'). assert (Q0 := PV' []). rewrite app_nil_r in Q0. congruence.
     - (* membership in a literal list *)
       destruct ct as [| |cs|]; try discriminate. destruct it as [v ch| | |]; try discriminate.
       apply andb_true_iff in Hs. destruct Hs as [Hs1 Hs2].
@@ -412,25 +411,35 @@ Section Agree.
       split; [reflexivity|]. split; [assumption|]. split; [assumption|].
       split; [cbn [eval_cond eval_operand]; cbn [eval_operand] in P1; rewrite P1; reflexivity|].
       split; [|simpl; now rewrite B1, unbindable_scalars].
-      intros more'. cbn [eval_pred]. rewrite V1. now apply in_agree.
+      intros more'. cbn [eval_pred]. rewrite V1. now apply in_sound.
     - (* and *)
       apply andb_true_iff in Hs, Hd. destruct Hs as [Hs1 Hs2]. destruct Hd as [Hd1 Hd2].
-      destruct (IHp _ _ Hinv He Hs1 Hd1) as [p1 [st1 [m1 [b1 [T1 [I1 [R1 [E1 [V1 B1]]]]]]]]].
-      destruct (IHq _ _ I1 R1 Hs2 Hd2) as [p2 [st2 [m2 [b2 [T2 [I2 [R2 [E2 [V2 B2]]]]]]]]].
+      destruct (IHp io _ _ Hinv He Hs1 Hd1) as [p1 [st1 [m1 [b1 [T1 [I1 [R1 [E1 [V1 B1]]]]]]]]].
+      destruct (IHq io _ _ I1 R1 Hs2 Hd2) as [p2 [st2 [m2 [b2 [T2 [I2 [R2 [E2 [V2 B2]]]]]]]]].
       exists (SAnd p1 p2), st2, (m1 ++ m2), (b1 && b2). cbn [tcond]. rewrite T1, T2. rewrite app_assoc.
       split; [reflexivity|]. split; [assumption|]. split; [assumption|].
       split; [cbn [eval_cond]; rewrite E1; destruct b1; simpl; auto|].
       split; [|simpl; now rewrite B1, B2].
-      intros more'. cbn [eval_pred]. rewrite V2, <- (app_assoc (env ++ m1) m2 more'), V1. apply tv_and_bool.
+      intros more'. cbn [eval_pred]. rewrite tv_true_and, V2, <- (app_assoc (env ++ m1) m2 more'), V1. reflexivity.
     - (* or *)
       apply andb_true_iff in Hs, Hd. destruct Hs as [Hs1 Hs2]. destruct Hd as [Hd1 Hd2].
-      destruct (IHp _ _ Hinv He Hs1 Hd1) as [p1 [st1 [m1 [b1 [T1 [I1 [R1 [E1 [V1 B1]]]]]]]]].
-      destruct (IHq _ _ I1 R1 Hs2 Hd2) as [p2 [st2 [m2 [b2 [T2 [I2 [R2 [E2 [V2 B2]]]]]]]]].
+      destruct (IHp true _ _ Hinv He Hs1 Hd1) as [p1 [st1 [m1 [b1 [T1 [I1 [R1 [E1 [V1 B1]]]]]]]]].
+      destruct (IHq true _ _ I1 R1 Hs2 Hd2) as [p2 [st2 [m2 [b2 [T2 [I2 [R2 [E2 [V2 B2]]]]]]]]].
       exists (SOr p1 p2), st2, (m1 ++ m2), (b1 || b2). cbn [tcond]. rewrite T1, T2. rewrite app_assoc.
       split; [reflexivity|]. split; [assumption|]. split; [assumption|].
       split; [cbn [eval_cond]; rewrite E1; destruct b1; simpl; auto|].
       split; [|simpl; now rewrite B1, B2].
-      intros more'. cbn [eval_pred]. rewrite V2, <- (app_assoc (env ++ m1) m2 more'), V1. apply tv_or_bool.
+      intros more'. cbn [eval_pred]. rewrite tv_true_or, V2, <- (app_assoc (env ++ m1) m2 more'), V1. reflexivity.
+    - (* a column as condition *)
+      destruct x as [v ch| | |]; try discriminate.
+      destruct (operand_data sc w sel root o (OAttr v ch)) as [a|] eqn:Ea; try discriminate.
+      destruct (toperand_ok _ _ _ _ Hinv He Hs Ea) as [e1 [st1 [m1 [T1 [I1 [R1 [V1 [P1 [S1 [B1 N1]]]]]]]]]].
+      exists (STruth e1), st1, m1, (truthy a).
+      cbn [tcond]. cbn [toperand] in T1. rewrite T1.
+      split; [reflexivity|]. split; [assumption|]. split; [assumption|].
+      split; [cbn [eval_cond]; rewrite P1; reflexivity|].
+      split; [|exact B1].
+      intros more'. cbn [eval_pred]. rewrite V1. now apply truth_sound.
   Qed.
 End Agree.
 
@@ -468,15 +477,15 @@ Proof.
   repeat (apply andb_true_iff in Hf; destruct Hf as [Hf ?]).
   rename H into Hall, H0 into Hnd, H1 into Hshape. apply Z.eqb_eq in Hf.
   unfold translate in Ht. rewrite Ev0, Ec, <- Hf in Ht. simpl assoc in Ht. rewrite Z.eqb_refl in Ht.
-  destruct (tcond sc [(v0, root0)] v0 root0 jm0 c) as [p st| | |] eqn:Et; try discriminate.
+  destruct (tcond sc [(v0, root0)] v0 root0 false jm0 c) as [p st| | |] eqn:Et; try discriminate.
   injection Ht as <-.
   rewrite forallb_forall in Hall.
   assert (Hobj : forall o, In o (instances sc w root0) ->
             exists p0 more b, p = Some p0 /\ build_env sc w [row_of o] (j_joins st) = Some ([row_of o] ++ more) /\
-                              eval_cond w [(v0, o)] c = Ok b /\ eval_pred ([row_of o] ++ more) p0 = tv_of_bool b /\
+                              eval_cond w [(v0, o)] c = Ok b /\ tv_true (eval_pred ([row_of o] ++ more) p0) = b /\
                               pred_bad p0 = false).
   { intros o Ho.
-    destruct (tcond_ok sc w o v0 root0 c jm0 [row_of o] inv_jm0 eq_refl Hshape (Hall o Ho))
+    destruct (tcond_ok sc w o v0 root0 c false jm0 [row_of o] inv_jm0 eq_refl Hshape (Hall o Ho))
       as [p0 [st' [more [b [T [I [R [E [V B]]]]]]]]].
     rewrite Et in T. injection T as -> ->. exists p0, more, b.
     repeat split; auto. specialize (V []). now rewrite app_nil_r in V. }
@@ -492,7 +501,7 @@ Proof.
     + apply filter_map_rows. intros o Ho.
       destruct (Hobj o Ho) as [p1 [more [b [Hp [Hb [He [Hv _]]]]]]]. injection Hp as <-.
       unfold envf, g. rewrite Hb, He. split; [reflexivity|].
-      unfold where_true. cbn [s_where]. rewrite Hv. apply tv_true_of_bool.
+      unfold where_true. cbn [s_where]. exact Hv.
     + assert (HF : forall l : list obj,
                 (forall o, In o l -> exists e, build_env sc w [row_of o] (j_joins st) = Some e) ->
                 Forall2 (fun env out => build_env sc w env (j_joins st) = Some out)
@@ -522,21 +531,27 @@ Proof.
   - unfold toperand, tattr in H. destruct (v =? sel); try discriminate. eapply twalk_safe; eauto.
   - simpl in H, Hx. injection H as <- <-. now destruct c.
 Qed.
-Lemma tcond_safe sc sel root c : forall st p st',
-  cond_shape sc sel root c = true -> tcond sc [(sel, root)] sel root st c = ROk p st' ->
+Lemma mk_cmp_bad op a b p : mk_cmp op a b = Some p -> sx_bad a = false -> sx_bad b = false -> pred_bad p = false.
+Proof.
+  intros H Ba Bb. unfold mk_cmp in H.
+  destruct op; try destruct (is_col a && is_col b); destruct b as [|[]]; try discriminate;
+    injection H as <-; simpl; rewrite ?Ba, ?Bb; auto.
+Qed.
+Lemma tcond_safe sc sel root c : forall io st p st',
+  cond_shape sc sel root c = true -> tcond sc [(sel, root)] sel root io st c = ROk p st' ->
   forall p0, p = Some p0 -> pred_bad p0 = false.
 Proof.
-  induction c as [op l r|ct it|p1 IH1 q1 IH2|p1 IH1 q1 IH2|p1 _|x]; intros st p st' Hc H;
+  induction c as [op l r|ct it|p1 IH1 q1 IH2|p1 IH1 q1 IH2|p1 _|x]; intros io st p st' Hc H;
     cbn [cond_shape] in Hc; try discriminate.
-  - destruct l as [v ch| | |]; try discriminate. apply andb_true_iff in Hc. destruct Hc as [Hc1 Hc2].
-    cbn [tcond] in H. unfold tcmp in H. rewrite (teqjoin_none sc sel root st op v ch r Hc1 Hc2) in H.
-    destruct (negb (rel_check sc [(sel, root)] (is_eqne op) (OAttr v ch) r)); try discriminate.
+  - destruct l as [v ch| | |]; try discriminate. apply andb_true_iff in Hc. destruct Hc as [Hc _].
+    apply andb_true_iff in Hc. destruct Hc as [Hc1 Hc2].
+    cbn [tcond] in H. unfold tcmp in H. rewrite (teqjoin_none sc sel root io st op v ch r Hc1 Hc2) in H.
+    destruct (negb (rel_check sc [(sel, root)] (eqne op) (OAttr v ch) r)); try discriminate.
     destruct (toperand sc [(sel, root)] sel root st (OAttr v ch)) as [a st1| | |] eqn:E1; try discriminate.
     destruct (toperand sc [(sel, root)] sel root st1 r) as [b st2| | |] eqn:E2; try discriminate.
     assert (B1 := toperand_safe _ _ _ _ _ _ _ Hc1 E1). assert (B2 := toperand_safe _ _ _ _ _ _ _ Hc2 E2).
     destruct (mk_cmp op a b) as [p0|] eqn:Em; try discriminate. injection H as <- <-.
-    intros p1 Hp. injection Hp as <-. unfold mk_cmp in Em.
-    destruct b as [|[]]; destruct op; try discriminate; injection Em as <-; simpl; rewrite ?B1; auto.
+    intros p1 Hp. injection Hp as <-. eapply mk_cmp_bad; eauto.
   - destruct ct as [| |cs|]; try discriminate. destruct it as [v ch| | |]; try discriminate.
     apply andb_true_iff in Hc. destruct Hc as [Hc1 Hc2].
     cbn [tcond] in H. unfold tcontains in H.
@@ -546,17 +561,21 @@ Proof.
     assert (B1 := toperand_safe sc sel root (OAttr v ch) st a st1 Hc1 E1).
     intros p0 Hp. injection Hp as <-. simpl. rewrite B1. now apply unbindable_scalars.
   - apply andb_true_iff in Hc. destruct Hc as [Hc1 Hc2]. cbn [tcond] in H.
-    destruct (tcond sc [(sel, root)] sel root st p1) as [a st1| | |] eqn:E1; try discriminate.
-    destruct (tcond sc [(sel, root)] sel root st1 q1) as [b st2| | |] eqn:E2; try discriminate.
-    injection H as <- <-. assert (B1 := IH1 _ _ _ Hc1 E1). assert (B2 := IH2 _ _ _ Hc2 E2).
+    destruct (tcond sc [(sel, root)] sel root io st p1) as [a st1| | |] eqn:E1; try discriminate.
+    destruct (tcond sc [(sel, root)] sel root io st1 q1) as [b st2| | |] eqn:E2; try discriminate.
+    injection H as <- <-. assert (B1 := IH1 _ _ _ _ Hc1 E1). assert (B2 := IH2 _ _ _ _ Hc2 E2).
     intros p0 Hp. destruct a, b; simpl in Hp; try discriminate; injection Hp as <-; simpl;
       rewrite ?(B1 _ eq_refl), ?(B2 _ eq_refl); auto.
   - apply andb_true_iff in Hc. destruct Hc as [Hc1 Hc2]. cbn [tcond] in H.
-    destruct (tcond sc [(sel, root)] sel root st p1) as [a st1| | |] eqn:E1; try discriminate.
-    destruct (tcond sc [(sel, root)] sel root st1 q1) as [b st2| | |] eqn:E2; try discriminate.
-    injection H as <- <-. assert (B1 := IH1 _ _ _ Hc1 E1). assert (B2 := IH2 _ _ _ Hc2 E2).
+    destruct (tcond sc [(sel, root)] sel root true st p1) as [a st1| | |] eqn:E1; try discriminate.
+    destruct (tcond sc [(sel, root)] sel root true st1 q1) as [b st2| | |] eqn:E2; try discriminate.
+    injection H as <- <-. assert (B1 := IH1 _ _ _ _ Hc1 E1). assert (B2 := IH2 _ _ _ _ Hc2 E2).
     intros p0 Hp. destruct a, b; simpl in Hp; try discriminate; injection Hp as <-; simpl;
       rewrite ?(B1 _ eq_refl), ?(B2 _ eq_refl); auto.
+  - destruct x as [v ch| | |]; try discriminate. cbn [tcond] in H.
+    destruct (tattr sc sel root st v ch) as [a st1| | |] eqn:E1; try discriminate. injection H as <- <-.
+    assert (B1 := toperand_safe sc sel root (OAttr v ch) st a st1 Hc E1).
+    intros p0 Hp. injection Hp as <-. exact B1.
 Qed.
 
 Lemma envs_of_nil d js : envs_of d js [] = [].
@@ -571,9 +590,9 @@ Proof.
   repeat (apply andb_true_iff in Hf; destruct Hf as [Hf ?]).
   rename H1 into Hshape. apply Z.eqb_eq in Hf.
   unfold translate in Ht. rewrite Ev, Ec, <- Hf in Ht. simpl assoc in Ht. rewrite Z.eqb_refl in Ht.
-  destruct (tcond sc [(v, root)] v root jm0 c) as [p st| | |] eqn:Et; try discriminate.
+  destruct (tcond sc [(v, root)] v root false jm0 c) as [p st| | |] eqn:Et; try discriminate.
   injection Ht as <-.
-  assert (B := tcond_safe sc v root c jm0 p st Hshape Et).
+  assert (B := tcond_safe sc v root c false jm0 p st Hshape Et).
   unfold sem_res, sem. cbn [s_invalid s_where s_joins s_root].
   assert (Hb : match p with Some p0 => pred_bad p0 | None => false end = false).
   { destruct p; auto. }
@@ -597,20 +616,20 @@ Theorem the_agree sc q w s :
 Proof. intros H1 H2. now rewrite (agree sc q w s H1 H2). Qed.
 
 (* ---------- node kinds the translator does not know are never answered ---------- *)
-Lemma tcond_not sc vars sel root c : has_not c = true -> forall st p st', tcond sc vars sel root st c <> ROk p st'.
+Lemma tcond_not sc vars sel root c : has_not c = true -> forall io st p st', tcond sc vars sel root io st c <> ROk p st'.
 Proof.
-  induction c as [op l r|ct it|p1 IH1 q1 IH2|p1 IH1 q1 IH2|p1 _|x]; intros Hn st p st'; simpl in Hn; try discriminate.
-  - cbn [tcond]. destruct (tcond sc vars sel root st p1) as [a st1| | |] eqn:E1; try discriminate.
+  induction c as [op l r|ct it|p1 IH1 q1 IH2|p1 IH1 q1 IH2|p1 _|x]; intros Hn io st p st'; simpl in Hn; try discriminate.
+  - cbn [tcond]. destruct (tcond sc vars sel root io st p1) as [a st1| | |] eqn:E1; try discriminate.
     destruct (has_not p1) eqn:N1; [exfalso; eapply IH1; eauto|]. simpl in Hn.
-    destruct (tcond sc vars sel root st1 q1) as [b st2| | |] eqn:E2; try discriminate. exfalso; eapply IH2; eauto.
-  - cbn [tcond]. destruct (tcond sc vars sel root st p1) as [a st1| | |] eqn:E1; try discriminate.
+    destruct (tcond sc vars sel root io st1 q1) as [b st2| | |] eqn:E2; try discriminate. exfalso; eapply IH2; eauto.
+  - cbn [tcond]. destruct (tcond sc vars sel root true st p1) as [a st1| | |] eqn:E1; try discriminate.
     destruct (has_not p1) eqn:N1; [exfalso; eapply IH1; eauto|]. simpl in Hn.
-    destruct (tcond sc vars sel root st1 q1) as [b st2| | |] eqn:E2; try discriminate. exfalso; eapply IH2; eauto.
+    destruct (tcond sc vars sel root true st1 q1) as [b st2| | |] eqn:E2; try discriminate. exfalso; eapply IH2; eauto.
 Qed.
 Theorem not_never_answered sc q c : q_cond q = Some c -> has_not c = true -> forall s, translate sc q <> TOk s.
 Proof.
   intros Hc Hn s. unfold translate. rewrite Hc. destruct (assoc (q_sel q) (q_vars q)); try discriminate.
-  destruct (tcond sc (q_vars q) (q_sel q) z jm0 c) eqn:E; try discriminate. exfalso. eapply tcond_not; eauto.
+  destruct (tcond sc (q_vars q) (q_sel q) z false jm0 c) eqn:E; try discriminate. exfalso. eapply tcond_not; eauto.
 Qed.
 
 (* ---------- the rejections introduced by the C07 fix: commits ---------- *)
@@ -623,8 +642,8 @@ Theorem rejects_othervar sc q op v ch lit :
 Proof.
   intros Hc Hv. unfold translate. rewrite Hc. destruct (assoc (q_sel q) (q_vars q)) as [root|]; auto.
   cbn [tcond]. unfold tcmp.
-  assert (E : teqjoin sc (q_vars q) root jm0 op (OAttr v ch) (OLit lit) = None) by (destruct op; reflexivity).
-  rewrite E. destruct (negb (rel_check sc (q_vars q) (is_eqne op) (OAttr v ch) (OLit lit))); auto.
+  assert (E : teqjoin sc (q_vars q) root false jm0 op (OAttr v ch) (OLit lit) = None) by (destruct op; reflexivity).
+  rewrite E. destruct (negb (rel_check sc (q_vars q) (eqne op) (OAttr v ch) (OLit lit))); auto.
   unfold toperand, tattr. apply Z.eqb_neq in Hv. now rewrite Hv.
 Qed.
 (* the same inside any operand position: translate_attribute itself refuses *)
@@ -638,7 +657,7 @@ Theorem rejects_rel_literal sc q op v ch lit :
 Proof.
   intros Hc Hr. unfold translate. rewrite Hc. destruct (assoc (q_sel q) (q_vars q)) as [root|]; auto.
   cbn [tcond]. unfold tcmp.
-  assert (E : teqjoin sc (q_vars q) root jm0 op (OAttr v ch) (OLit lit) = None) by (destruct op; reflexivity).
+  assert (E : teqjoin sc (q_vars q) root false jm0 op (OAttr v ch) (OLit lit) = None) by (destruct op; reflexivity).
   rewrite E. unfold rel_check. rewrite Hr. cbn [is_rel is_var negb orb andb]. reflexivity.
 Qed.
 Theorem rejects_rel_in_list sc q v ch cs :
@@ -664,12 +683,12 @@ Qed.
 
 (* C07-f: an ordering comparison against the literal None *)
 Theorem rejects_none_order sc q op v ch :
-  atom_query q (CCmp op (OAttr v ch) (OLit VNull)) -> is_eqne op = false -> forall s, translate sc q <> TOk s.
+  atom_query q (CCmp op (OAttr v ch) (OLit VNull)) -> eqne op = false -> forall s, translate sc q <> TOk s.
 Proof.
   intros Hc Ho s. unfold translate. rewrite Hc. destruct (assoc (q_sel q) (q_vars q)) as [root|]; try discriminate.
   cbn [tcond]. unfold tcmp.
-  assert (E : teqjoin sc (q_vars q) root jm0 op (OAttr v ch) (OLit VNull) = None) by (destruct op; reflexivity).
-  rewrite E. destruct (negb (rel_check sc (q_vars q) (is_eqne op) (OAttr v ch) (OLit VNull))); try discriminate.
+  assert (E : teqjoin sc (q_vars q) root false jm0 op (OAttr v ch) (OLit VNull) = None) by (destruct op; reflexivity).
+  rewrite E. destruct (negb (rel_check sc (q_vars q) (eqne op) (OAttr v ch) (OLit VNull))); try discriminate.
   destruct (toperand sc (q_vars q) (q_sel q) root jm0 (OAttr v ch)) as [a st1| | |]; try discriminate.
   cbn [toperand]. destruct op; try discriminate; cbn [mk_cmp]; discriminate.
 Qed.
@@ -685,29 +704,45 @@ Proof.
     destruct (alias_for st cur a tgt) as [i st1]. apply IH. exact H.
 Qed.
 Lemma toperand_total sc sel root x st : operand_shape sc sel root x = true ->
-  exists e st', toperand sc [(sel, root)] sel root st x = ROk e st' /\ e <> SConst VNull.
+  exists e st', toperand sc [(sel, root)] sel root st x = ROk e st' /\
+                match x with OAttr _ _ => is_col e = true | OLit c => e = SConst c | _ => True end.
 Proof.
   intros H. destruct x as [v ch|c| |]; try discriminate.
   - destruct (shape_attr sc sel root v ch H) as [E1 E2]. unfold toperand, tattr. rewrite E1.
-    destruct (twalk_total sc ch st 0%nat root E2) as [i [a [st' T]]]. rewrite T. exists (SCol i a), st'. split; auto. discriminate.
-  - simpl in H. exists (SConst c), st. split; auto. intros E. injection E as ->. discriminate.
+    destruct (twalk_total sc ch st 0%nat root E2) as [i [a [st' T]]]. rewrite T. exists (SCol i a), st'. split; auto.
+  - simpl in H. exists (SConst c), st. split; auto.
+Qed.
+Lemma mk_cmp_total op a b r : is_col a = true ->
+  match r with OAttr _ _ => is_col b = true | OLit c => b = SConst c | _ => True end ->
+  (eqne op || negb (none_lit r)) = true -> (exists v ch, r = OAttr v ch) \/ (exists c, r = OLit c) ->
+  exists p, mk_cmp op a b = Some p.
+Proof.
+  intros Ha Hb Hs [[v [ch ->]]|[c ->]].
+  - destruct b; try discriminate. destruct op; simpl; rewrite ?Ha; simpl; eauto.
+  - subst b. destruct a; try discriminate. destruct op; simpl in *; destruct c; try discriminate; eauto.
 Qed.
 Lemma tcond_total sc sel root c : cond_shape sc sel root c = true ->
-  forall st, exists p st', tcond sc [(sel, root)] sel root st c = ROk (Some p) st'.
+  forall io st, exists p st', tcond sc [(sel, root)] sel root io st c = ROk (Some p) st'.
 Proof.
-  induction c as [op l r|ct it|p1 IH1 q1 IH2|p1 IH1 q1 IH2|p1 _|x]; intros Hc st; cbn [cond_shape] in Hc; try discriminate.
-  - destruct l as [v ch| | |]; try discriminate. apply andb_true_iff in Hc. destruct Hc as [Hc1 Hc2].
-    cbn [tcond]. unfold tcmp. rewrite (teqjoin_none sc sel root st op v ch r Hc1 Hc2), (rel_check_shape sc sel root _ _ _ Hc1 Hc2).
-    cbn [negb]. destruct (toperand_total sc sel root _ st Hc1) as [a [st1 [T1 _]]]. rewrite T1.
-    destruct (toperand_total sc sel root _ st1 Hc2) as [b [st2 [T2 N2]]]. rewrite T2, (mk_cmp_some _ _ _ N2). eauto.
+  induction c as [op l r|ct it|p1 IH1 q1 IH2|p1 IH1 q1 IH2|p1 _|x]; intros Hc io st; cbn [cond_shape] in Hc; try discriminate.
+  - destruct l as [v ch| | |]; try discriminate. apply andb_true_iff in Hc. destruct Hc as [Hc Hn].
+    apply andb_true_iff in Hc. destruct Hc as [Hc1 Hc2].
+    cbn [tcond]. unfold tcmp. rewrite (teqjoin_none sc sel root io st op v ch r Hc1 Hc2), (rel_check_shape sc sel root _ _ _ Hc1 Hc2).
+    cbn [negb]. destruct (toperand_total sc sel root _ st Hc1) as [a [st1 [T1 A1]]]. rewrite T1.
+    destruct (toperand_total sc sel root _ st1 Hc2) as [b [st2 [T2 A2]]]. rewrite T2.
+    destruct (mk_cmp_total op a b r A1 A2 Hn) as [p M].
+    { destruct r; try discriminate; eauto. }
+    rewrite M. eauto.
   - destruct ct as [| |cs|]; try discriminate. destruct it as [v ch| | |]; try discriminate.
     apply andb_true_iff in Hc. destruct Hc as [Hc1 Hc2]. cbn [tcond]. unfold tcontains.
     rewrite (shape_not_rel sc sel root _ Hc1). cbn [is_rel orb].
     destruct (toperand_total sc sel root _ st Hc1) as [a [st1 [T1 _]]]. cbn [toperand] in T1. rewrite T1. eauto.
   - apply andb_true_iff in Hc. destruct Hc as [Hc1 Hc2]. cbn [tcond].
-    destruct (IH1 Hc1 st) as [a [st1 T1]]. rewrite T1. destruct (IH2 Hc2 st1) as [b [st2 T2]]. rewrite T2. simpl. eauto.
+    destruct (IH1 Hc1 io st) as [a [st1 T1]]. rewrite T1. destruct (IH2 Hc2 io st1) as [b [st2 T2]]. rewrite T2. simpl. eauto.
   - apply andb_true_iff in Hc. destruct Hc as [Hc1 Hc2]. cbn [tcond].
-    destruct (IH1 Hc1 st) as [a [st1 T1]]. rewrite T1. destruct (IH2 Hc2 st1) as [b [st2 T2]]. rewrite T2. simpl. eauto.
+    destruct (IH1 Hc1 true st) as [a [st1 T1]]. rewrite T1. destruct (IH2 Hc2 true st1) as [b [st2 T2]]. rewrite T2. simpl. eauto.
+  - destruct x as [v ch| | |]; try discriminate. cbn [tcond].
+    destruct (toperand_total sc sel root _ st Hc) as [a [st1 [T1 _]]]. cbn [toperand] in T1. rewrite T1. eauto.
 Qed.
 Theorem f07_accepted sc q w : f07 sc q w = true -> exists s, translate sc q = TOk s.
 Proof.
@@ -715,7 +750,7 @@ Proof.
   destruct (q_cond q) as [c|] eqn:Ec; try discriminate.
   repeat (apply andb_true_iff in Hf; destruct Hf as [Hf ?]).
   rename H1 into Hshape. apply Z.eqb_eq in Hf.
-  destruct (tcond_total sc v root c Hshape jm0) as [p [st T]].
+  destruct (tcond_total sc v root c Hshape false jm0) as [p [st T]].
   unfold translate. rewrite Ev, Ec, <- Hf. simpl assoc. rewrite Z.eqb_refl, T. eauto.
 Qed.
 
@@ -744,12 +779,18 @@ Module Wit.
       {| o_key := 12; o_cls := 9; o_fields := [(10, VRef 9); (11, VRef 7)] |} ].
   Definition mk (the : bool) (vars : list (Z * Z)) (c : cond) : query :=
     {| q_the := the; q_sel := 1; q_vars := vars; q_cond := Some c |}.
-  (* open: entity(o, o.w != 1) and entity(o, o.w < 0) *)
-  Definition q_null_ne := mk false [(1, 3)] (CCmp ONe (OAttr 1 [6]) (OLit (VInt 1))).
+  (* open: entity(o, o.w < 0) and the(entity(o, o.w < 2)) with a None w *)
   Definition q_null_lt := mk false [(1, 3)] (CCmp OLt (OAttr 1 [6]) (OLit (VInt 0))).
-  (* open: entity(b, b.name) *)
+  Definition q_null_lt_the := mk true [(1, 3)] (CCmp OLt (OAttr 1 [6]) (OLit (VInt 2))).
+  (* repaired, now inside F07: entity(o, o.w != 1) with a None w; entity(b, b.name) *)
+  Definition q_null_ne := mk false [(1, 3)] (CCmp ONe (OAttr 1 [6]) (OLit (VInt 1))).
   Definition q_strtruth := mk false [(1, 5)] (CTruth (OAttr 1 [1])).
-  (* open: entity(f, and_(f.parent == pc.child, f.child == pc.parent)) *)
+  (* inside F07 with None: entity(o, or_(o.w != 1, and_(o.w, in_(o.w, [1, 2])))), entity(o, o.w == None) *)
+  Definition q_null_mix := mk false [(1, 3)]
+    (COr (CCmp ONe (OAttr 1 [6]) (OLit (VInt 1)))
+         (CAnd (CTruth (OAttr 1 [6])) (CContains (OList [VInt 1; VInt 2]) (OAttr 1 [6])))).
+  Definition q_is_none := mk false [(1, 3)] (CCmp OEq (OAttr 1 [6]) (OLit VNull)).
+  (* repaired: entity(f, and_(f.parent == pc.child, f.child == pc.parent)) *)
   Definition q_eqjoin_twice := mk false [(1, 8); (2, 9)]
     (CAnd (CCmp OEq (OAttr 1 [10]) (OAttr 2 [11])) (CCmp OEq (OAttr 1 [11]) (OAttr 2 [10]))).
   Definition q_eqjoin_once := mk false [(1, 8); (2, 9)] (CCmp OEq (OAttr 1 [10]) (OAttr 2 [11])).
@@ -784,15 +825,9 @@ Definition model_res (sc : schema) (q : query) (w : world) : option (res (list Z
   match translate sc q with TOk s => Some (sem_res s (encode sc w)) | _ => None end.
 
 Lemma refuted_null :
-  (model_res Wit.sc Wit.q_null_ne Wit.w = Some (Ok []) /\ answers Wit.sc Wit.q_null_ne Wit.w = Ok [3]) /\
-  (model_res Wit.sc Wit.q_null_lt Wit.w = Some (Ok []) /\ answers Wit.sc Wit.q_null_lt Wit.w = Err TypeErr).
-Proof. repeat split; vm_compute; reflexivity. Qed.
-Lemma refuted_strtruth :
-  model_res Wit.sc Wit.q_strtruth Wit.w = Some (Ok []) /\ answers Wit.sc Wit.q_strtruth Wit.w = Ok [7; 8; 9].
-Proof. split; vm_compute; reflexivity. Qed.
-Lemma refuted_eqjoin_twice :
-  model_res Wit.sc Wit.q_eqjoin_twice Wit.w = model_res Wit.sc Wit.q_eqjoin_once Wit.w /\
-  model_res Wit.sc Wit.q_eqjoin_twice Wit.w = Some (Ok [10; 11]) /\ answers Wit.sc Wit.q_eqjoin_twice Wit.w = Ok [11].
+  (model_res Wit.sc Wit.q_null_lt Wit.w = Some (Ok []) /\ answers Wit.sc Wit.q_null_lt Wit.w = Err TypeErr) /\
+  (option_map one_of (model_res Wit.sc Wit.q_null_lt_the Wit.w) = Some (OneValue 4) /\
+   one_of (answers Wit.sc Wit.q_null_lt_the Wit.w) = OneFailed).
 Proof. repeat split; vm_compute; reflexivity. Qed.
 Lemma refuted_valueeq :
   model_res Wit.sc Wit.q_valueeq Wit.w = Some (Ok []) /\ answers Wit.sc Wit.q_valueeq Wit.w = Ok [10].
@@ -803,7 +838,18 @@ Lemma fixed_witnesses :
   translate Wit.sc Wit.q_varop = TReject /\ translate Wit.sc Wit.q_noneorder = TReject /\
   translate Wit.sc Wit.q_selfjoin = TReject /\
   (model_res Wit.sc Wit.q_like Wit.w = Some (Ok []) /\ answers Wit.sc Wit.q_like Wit.w = Ok []) /\
-  (model_res Wit.sc Wit.q_like2 Wit.w = Some (Ok [7; 8]) /\ answers Wit.sc Wit.q_like2 Wit.w = Ok [7; 8]).
+  (model_res Wit.sc Wit.q_like2 Wit.w = Some (Ok [7; 8]) /\ answers Wit.sc Wit.q_like2 Wit.w = Ok [7; 8]) /\
+  (model_res Wit.sc Wit.q_null_ne Wit.w = Some (Ok [3]) /\ answers Wit.sc Wit.q_null_ne Wit.w = Ok [3]) /\
+  (model_res Wit.sc Wit.q_strtruth Wit.w = Some (Ok [7; 8; 9]) /\ answers Wit.sc Wit.q_strtruth Wit.w = Ok [7; 8; 9]) /\
+  (model_res Wit.sc Wit.q_eqjoin_twice Wit.w = Some (Ok [11]) /\ answers Wit.sc Wit.q_eqjoin_twice Wit.w = Ok [11]) /\
+  (model_res Wit.sc Wit.q_eqjoin_once Wit.w = Some (Ok [10; 11]) /\ answers Wit.sc Wit.q_eqjoin_once Wit.w = Ok [10; 11]).
+Proof. repeat split; vm_compute; reflexivity. Qed.
+Lemma nonvacuous_null :
+  f07 Wit.sc Wit.q_null_mix Wit.w = true /\ model_res Wit.sc Wit.q_null_mix Wit.w = Some (Ok [3; 4]) /\
+  answers Wit.sc Wit.q_null_mix Wit.w = Ok [3; 4] /\
+  f07 Wit.sc Wit.q_is_none Wit.w = true /\ model_res Wit.sc Wit.q_is_none Wit.w = Some (Ok [3]) /\
+  f07 Wit.sc Wit.q_null_ne Wit.w = true /\ f07 Wit.sc Wit.q_strtruth Wit.w = true /\
+  f07 Wit.sc Wit.q_null_lt Wit.w = false.
 Proof. repeat split; vm_compute; reflexivity. Qed.
 Lemma nonvacuous :
   f07 Wit.sc Wit.q_ok Wit.w_ok = true /\ model_res Wit.sc Wit.q_ok Wit.w_ok = Some (Ok [5]) /\
